@@ -38,7 +38,7 @@ def make_supply(kind, horizon, rng, mode="random"):
     return sigma[:horizon]
 
 
-def simulate_executor(callbacks, releases, sigma, chains=None, trace=None):
+def simulate_executor(callbacks, releases, sigma, chains=None, trace=None, polls=None):
     """callbacks: list of dicts {kind: 'T'|'P', prio: int (smaller = higher), cost: int};
     releases: list (per callback) of sorted external release times; chains: dict cb -> next cb
     (a completed instance of cb releases an instance of next at its completion time).
@@ -69,6 +69,8 @@ def simulate_executor(callbacks, releases, sigma, chains=None, trace=None):
             else:
                 if not ready:
                     ready = [i for i in range(n) if callbacks[i]["kind"] == "P" and queue[i]]
+                    if polls is not None:
+                        polls.append(t)
                 if ready:
                     i = min(ready, key=lambda x: callbacks[x]["prio"])
                     ready.remove(i)
@@ -163,4 +165,97 @@ def check_timer_legal(callbacks, releases, sigma, trace, i):
             svc[j] += 1
         elif sigma[t] and any(x in pending for x in rel_inst):
             bad.add("wc")
+    return sorted(bad)
+
+
+def check_polling_legal(callbacks, releases, sigma, trace, polls):
+    """executable rendering of `PollingExecLegal` (lean/RTA/RTA/Lemmas/RrSound.lean): checks a
+    trace of the executor model together with its polling points against every clause;
+    returns the list of violated clauses (empty = legal)"""
+    horizon = len(sigma)
+    ncb = len(callbacks)
+    inst = []
+    for k, rl in enumerate(releases):
+        for r in sorted(rl):
+            if r < horizon:
+                inst.append((k, r))
+    order = {k: [x for x, (kk, _) in enumerate(inst) if kk == k] for k in range(ncb)}
+    ptr = {k: 0 for k in range(ncb)}
+    cost = [callbacks[k]["cost"] for k, _ in inst]
+    acc = [0] * len(inst)
+    cur = {}
+    served = {}
+    for (t, k, rel) in trace:
+        if k not in cur or acc[cur[k]] >= cost[cur[k]]:
+            if ptr[k] >= len(order[k]):
+                return ["trace serves an instance that was never released"]
+            cur[k] = order[k][ptr[k]]
+            ptr[k] += 1
+        served[t] = cur[k]
+        acc[cur[k]] += 1
+    is_timer = [c["kind"] == "T" for c in callbacks]
+    pp = set(polls)
+    bad = set()
+    svc = [0] * len(inst)
+    svc_at = []              # svc vectors per slot (needed for clauses that look back)
+    start_at = {}            # instance -> start slot
+    for t in range(horizon):
+        svc_at.append(list(svc))
+        j = served.get(t)
+        pending = [x for x in range(len(inst)) if inst[x][1] <= t and svc[x] < cost[x]]
+        if t in pp and any(0 < svc[x] < cost[x] for x in range(len(inst))):
+            bad.add("ppIdle")
+        if j is not None:
+            if not (inst[j][1] <= t and svc[j] < cost[j] and sigma[t]):
+                bad.add("valid")
+            if any(x != j and 0 < svc[x] < cost[x] for x in range(len(inst))):
+                bad.add("nonpre")
+            if svc[j] == 0:
+                start_at[j] = t
+                kj = inst[j][0]
+                if any(inst[x][0] == kj and svc[x] == 0 and inst[x][1] < inst[j][1] for x in pending):
+                    bad.add("fifo")
+                if not is_timer[kj]:
+                    if any(is_timer[inst[x][0]] for x in pending):
+                        bad.add("timersFirst")
+                    ps = [q for q in pp if q <= t]
+                    if not ps or inst[j][1] > max(ps):
+                        bad.add("inWindow")
+            svc[j] += 1
+        elif sigma[t] and pending:
+            bad.add("wc")
+    svc_at.append(list(svc))
+    pps = sorted(pp)
+
+    def last_pp(t):
+        ps = [q for q in pps if q <= t]
+        return max(ps) if ps else None
+    # once: one instance per polled callback and window
+    seen = {}
+    for j, t in start_at.items():
+        k = inst[j][0]
+        if not is_timer[k]:
+            key = (k, last_pp(t))
+            if key in seen:
+                bad.add("once")
+            seen[key] = j
+    # served: unstarted at a later polling point => another instance of the callback started in between
+    for a_i, p in enumerate(pps):
+        for p2 in pps[a_i + 1:a_i + 3]:
+            for j, (k, r) in enumerate(inst):
+                if not is_timer[k] and r <= p and svc_at[p2][j] == 0:
+                    if not any(inst[x][0] == k and x != j and p <= u < p2 for x, u in start_at.items()):
+                        bad.add("served")
+    # prioWin
+    for j, t in start_at.items():
+        kj = inst[j][0]
+        if is_timer[kj]:
+            continue
+        p = last_pp(t)
+        if p is None:
+            continue
+        for x, (k, r) in enumerate(inst):
+            if not is_timer[k] and callbacks[k]["prio"] < callbacks[kj]["prio"] and r <= p and svc_at[p][x] == 0:
+                if not any(inst[y][0] == k and p <= u < t for y, u in start_at.items()):
+                    bad.add("prioWin")
     return sorted(bad)
